@@ -84,10 +84,14 @@ func runContainerCase(c *CaseCtx, cc *ContCase) (*CaseResult, *World, *Node) {
 	w := NewWorld(c.CaseSeed(), addr)
 	w.prof = cc.Prof
 	w.mon = cc.Mon
+	w.TolerateInlineLimit = true
 	res.Stats = w.stats
 	var root *Node
 	var err error
 	finish := func(e error) (*CaseResult, *World, *Node) {
+		if e == errStop {
+			e = nil // the library refused a commit because of its 256-entry limit: the case ends without a verdict on the rest
+		}
 		if e != nil {
 			if v, ok := e.(*Violation); ok {
 				res.fail(v)
@@ -467,6 +471,12 @@ func basicCase(c *CaseCtx, kind string) *ContCase {
 		cc.CommitEvery = 9
 	}
 	cc.Relaxed = r.Intn(3) == 0
+	// cache evictions and full reopens between the operations: nested containers are then decoded (not the objects the
+	// history built), which is where shared decode-time state would show
+	if cc.CommitEvery > 0 && cc.CommitEvery <= 50 {
+		cc.EvictEvery = []int{0, 1, 2, 3}[r.Intn(4)]
+		cc.ReopenEvery = []int{0, 0, 4, 3}[r.Intn(4)]
+	}
 	cc.DrainAtEnd = c.Case%3 == 0
 	if c.Case%7 == 6 {
 		cc.BatchStart = []int{2, 3, 4, 5, 6, 7, 9, 12, 40, 150}[r.Intn(10)]
